@@ -19,7 +19,7 @@ man = {
         "name": "gosx",
         "path": "engine",
         "serves_properties": sorted(tbl["checks"].keys()),
-        "kind_free_text": "symbolic executor for Go written for this task: go/ssa (x/tools v0.29.0) of /repo's working tree interpreted over SMT terms (forked go/ssa/interp value domain), stateless DFS by decision-prefix re-execution, z3 4.8.12 via one long-lived `z3 -in` per worker, native replay of every solver model through `go test -overlay`",
+        "kind_free_text": "symbolic executor for Go written for this task: go/ssa (x/tools v0.29.0) of /repo's working tree interpreted over SMT terms (forked go/ssa/interp value domain), stateless DFS by decision-prefix re-execution, z3 5.1.0 (z3-new) via one long-lived `z3-new -in` per worker with a one-shot fallback process, native replay of every solver model through `go test -overlay`",
     }],
     "checks": [],
     "notes": tbl.get("notes", ""),
